@@ -12,6 +12,19 @@ COMMON_NOTE = ("Trusted base: Lean 4.33 kernel; axioms ⊆ {propext, Classical.c
                "by exact-float inputs or bounded by a tolerance. ")
 
 CLAIMS = {
+    'C04': dict(
+        text="One model, three back-ends: every case of the C05 (distances, segments), C10 (reroot, cut, subset), C12 (pruning) — and C17/C11/C13 "
+             "when built — correspondence streams is executed with navis switched in-process to fastcore, igraph-only and networkx-only, each "
+             "against the same Lean model output (equal up to order among exact ties), and 12 observables per forest are compared pairwise "
+             "across back-ends directly. Theorems (Props/C04.lean, unbounded): the igraph graph builder (row positions + node_id attribute) "
+             "encodes exactly the edges of the networkx builder for every well-formed table (any labelling / row order); degree-based and "
+             "parent-column-based classification agree on every node; with correct labels both `_break_segments` variants use the same "
+             "seeds and stops.",
+        note="navis-fastcore is compiled code: agreement with it is differential testing only. The equivalence of the two distal-set "
+             "constructions for cut and of the Python Strahler sweep with the recurrence are covered by the correspondence, not by theorems. "
+             "Five defects of the Python fall-backs were repaired by fix: commits; two mask-related divergences of navis-fastcore stay open.",
+        technique="Lean 4 proof of builder/classifier/seed equivalences + three-way differential correspondence against one model",
+        ref="§5 C04"),
     'C19': dict(
         text="Theorems (Props/C19.lean, 16, over Rat, none partial): half-to-even rounding spec; every point lies within one voxel size per "
              "axis of its voxel in the VoxelNeuron's own coordinates exactly as neuron2voxels indexes (round(p/pitch) − round(lo/pitch)); "
